@@ -46,6 +46,14 @@ pub fn readable(fd: RawFd) -> bool {
     r > 0 && p.revents != 0
 }
 
+/// Has the peer closed or shut down its end?
+pub fn hung_up(fd: RawFd) -> bool {
+    let mut p = libc::pollfd { fd, events: libc::POLLIN | libc::POLLRDHUP, revents: 0 };
+    // SAFETY: valid pollfd, zero timeout.
+    let r = unsafe { libc::syscall(libc::SYS_poll, &mut p as *mut libc::pollfd, 1 as c_long, 0 as c_long) };
+    r > 0 && p.revents & (libc::POLLHUP | libc::POLLRDHUP | libc::POLLERR) != 0
+}
+
 /// Bytes queued for reading on a socket (FIONREAD).
 pub fn pending_bytes(fd: RawFd) -> usize {
     let mut n: c_int = 0;
